@@ -6,7 +6,7 @@ ENTRY = dict(
          "Config.ApplicationSettings maps (h2 only, h2+http/1.1, with an entry under the empty name = the F-22 witness, other protocol only, "
          "nil, empty values, 300-byte values) x the ALPN protocol the server selects (h2 / http/1.1) x server settings of 0..32 random "
          "bytes; both code points in one message; negatives: ALPS without ALPN, with an unoffered ALPN protocol, next to early_data / "
-         "quic_transport_parameters, no ALPS at all, and an ALPS extension added to a TLS 1.2 / 1.1 ServerHello. Observed: handshake "
+         "quic_transport_parameters, no ALPS at all, and an ALPS extension added to a TLS 1.2 / 1.1 ServerHello; mutual TLS rows (server sends CertificateRequest, client answers with a certificate or an empty one) with the ORDER of the client's second flight checked as the server meets it; two-connection histories sharing a ClientSessionCache and the server's ticket keys (PSK parrots, HelloGolang) whose second, PSK-resumed connection negotiates ALPS again, with and without ALPN. Observed: handshake "
          "completion on both sides (the server reads the client's EncryptedExtensions into its transcript before checking the client "
          "Finished), the client's alert, ConnectionState.PeerApplicationSettings / NegotiatedProtocol, the client EncryptedExtensions bytes "
          "the server read, the server's EncryptedExtensions plaintext. (b) parser level: encryptedExtensionsMsg.unmarshal on 20 "
